@@ -77,6 +77,20 @@ pub fn shim_hashmap_filter_map_collect<K: Eq + Hash, V, F: FnMut((K, V)) -> Opti
     src.into_iter().filter_map(f).collect()
 }
 
+/// N2 chain shim `SRC.into_iter().filter_map(F).collect()` HashMap -> HashMap where F may CHANGE the key.
+/// Two sources mapped to the same key collide in `collect` (an unspecified one wins), so the contract only
+/// says: every result pair is F of some source pair, and every key F produces is present.
+#[verifier::external_body]
+pub fn shim_hashmap_filter_map_collect_rekey<K: Eq + Hash, V, F: FnMut((K, V)) -> Option<(K, V)>>(src: HashMap<K, V>, f: F) -> (r: HashMap<K, V>)
+    requires
+        forall|k: K| src@.contains_key(k) ==> call_requires(f, ((k, #[trigger] src@[k]),)),
+    ensures
+        forall|k2: K| #[trigger] r@.contains_key(k2) ==> exists|k: K| src@.contains_key(k) && #[trigger] call_ensures(f, ((k, src@[k]),), Some((k2, r@[k2]))),
+        forall|k: K| #[trigger] src@.contains_key(k) ==> exists|o: Option<(K, V)>| #[trigger] call_ensures(f, ((k, src@[k]),), o) && (o matches Some(q) ==> r@.contains_key(q.0)),
+{
+    src.into_iter().filter_map(f).collect()
+}
+
 /// N4 shim: `for PAT in MAP` over an owned HashMap visits each pair exactly once; modelled as a loop
 /// over the Vec of its pairs (vstd has no spec for hash_map::IntoIter).
 #[verifier::external_body]
